@@ -11,6 +11,7 @@ import JominiModel.Proofs.WriterArrays
 import JominiModel.Proofs.TextTapeFaithful3
 import JominiModel.Proofs.WriterGenParse
 import JominiModel.Proofs.WriterBinary
+import JominiModel.Proofs.WriterMixedParse
 /-
 C15 — Well-formed sequences of writer calls parse back to exactly what was written.
 Only property theorems live here; helper lemmas are in `Proofs/Writer.lean`, reference
@@ -504,33 +505,64 @@ example : (run (rgbCallsF [(.unq [115], none, ⟨10, 9, 8, none⟩), (.unq [101]
      101, 61, 114, 103, 98, 32, 123, 10, 32, 32, 55, 32, 54, 32, 53, 32, 52, 10, 125] := by
   decide +kernel
 
-/-- Mixed mode, what can be said without the two known findings: the call lists
+/-- **Mixed mode.**  The call lists
 `key, write_array_start, elements…, start_mixed_mode, (key, write_operator, value)…, write_end`
 with scalars only (`MixedDoc`) write exactly `key={`, the elements and then the pairs on one indented
-line — pairs glued as `a=b`, `c<d`, one space in front of each key —, `}` on its own line; for every
-indent byte and factor.  PARTIAL: the parse-back half is not proved in general because the text-tape
-slice's layout model has no array that turns into key-value pairs (only the object→list form);
-the full statement is
+line — pairs glued as `a=b`, `c<d`, one space in front of each key —, `}` on its own line, for every
+indent byte and factor; and these bytes parse back to exactly what was described (`mixedTape`): the
+key, an `Array` flagged mixed, the elements, `MixedContainer`, then key / `Operator` / value for every
+pair (`=` is a token of its own in the array part), `End`.  The parse-back half is the text-tape
+slice's `C01_faithful_full` applied to the writer's layout, shown to be a valid layout of the full
+document type (`FVal.arrSM`, Proofs/WriterMixedParse.lean).
 
-    theorem C15_mixed_parse_back (d : MixedDoc) (c f) (valid scalars, blank indent byte, no BOM) :
-      ∃ T, TextTape.parse (run d.calls (State.init c f)).1.out = .ok T false ∧ T.map erase =
-        [key, Array{end} mixed, elements…, MixedContainer, (a, Operator o, b)…, End]
+Hypotheses (`MixedDoc.Good`): valid scalars, and the two shapes for which the claim is FALSE on the
+real code (examples below; reported as findings):
+  * the operator `?=`: in mixed mode `write_operator` glues it to the key, and `?` is no boundary
+    byte, so `d?=e` reads back as the key `d?` and `=`;
+  * the bare scalar `?` as the key of the first pair directly behind the first element: `{ 1 ?=b }`
+    reads back as the object `1 ?= b`.
+Containers as elements or values after `start_mixed_mode` are outside `MixedDoc`: a nested object
+with an operator is the known finding `C14_known_mixed_nested_operator_breaks`. -/
+theorem C15_mixed_parse_back (d : MixedDoc) (c : UInt8) (f : Nat) (hc : TextTape.isBlank c = true)
+    (hd : d.Good) (hb : TextTape.hasBom (run d.calls (State.init c f)).1.out = false) :
+    (run d.calls (State.init c f)).1.out = d.text c f ∧
+    ∃ T, TextTape.parse (run d.calls (State.init c f)).1.out = .ok T false ∧
+      T.map TextTape.Tok.erase = mixedTape d := by
+  rw [lexemes_mixed d c f] at hb ⊢
+  exact ⟨rfl, WriterParse.parse_mixedText c f hc d hd hb⟩
 
-and it is decided on the real code by the L3 oracle of C14/C15 (and by the concrete instance below).
-Outside `MixedDoc` mixed-mode output does NOT parse back in general: a nested object with an
-operator inside the mixed container is the known finding `C14_known_mixed_nested_operator_breaks`,
-and `write_start`/objects as values after `start_mixed_mode` inherit the same stale `mixed_mode`. -/
-theorem C15_mixed_parse_back_partial (d : MixedDoc) (c : UInt8) (f : Nat) :
-    (run d.calls (State.init c f)).1.out = d.text c f :=
-  lexemes_mixed d c f
-
-/-- the mixed-container test of writer.rs (`data={ 10 d=e f<g }` here): bytes and parse-back computed -/
+/-- the mixed-container test of writer.rs (`data={ 10 d=e f<g }` here): every hypothesis holds, bytes
+and parse-back computed -/
 example : TextTape.parse (run (MixedDoc.calls ⟨.unq [100], .unq [49, 48], [],
       [(.unq [100], .eq, .unq [101]), (.unq [102], .lt, .unq [103])]⟩) (State.init 32 2)).1.out =
     .ok [.unquoted ⟨18, [100]⟩, .array 10 true, .unquoted ⟨12, [49, 48]⟩, .mixedContainer, .unquoted ⟨9, [100]⟩,
          .operator .eq, .unquoted ⟨7, [101]⟩, .unquoted ⟨5, [102]⟩, .operator .lt, .unquoted ⟨3, [103]⟩,
          .endTok 1] false := by
   decide +kernel
+
+example : mixedTape ⟨.unq [100], .unq [49, 48], [],
+      [(.unq [100], .eq, .unq [101]), (.unq [102], .lt, .unq [103])]⟩ =
+    [.unquoted ⟨0, [100]⟩, .array 10 true, .unquoted ⟨0, [49, 48]⟩, .mixedContainer, .unquoted ⟨0, [100]⟩,
+     .operator .eq, .unquoted ⟨0, [101]⟩, .unquoted ⟨0, [102]⟩, .operator .lt, .unquoted ⟨0, [103]⟩, .endTok 1] := by
+  decide +kernel
+
+/-- the first exclusion is needed: `data, [10, mixed, d ?= e]` writes `data={⏎  10 d?=e⏎}`, which reads
+back with the key `d?` and the operator `=` -/
+example : (run (MixedDoc.calls ⟨.unq [100], .unq [49, 48], [], [(.unq [100], .exists, .unq [101])]⟩)
+      (State.init 32 2)).1.out = [100, 61, 123, 10, 32, 32, 49, 48, 32, 100, 63, 61, 101, 10, 125] ∧
+    TextTape.parse [100, 61, 123, 10, 32, 32, 49, 48, 32, 100, 63, 61, 101, 10, 125] =
+      .ok [.unquoted ⟨15, [100]⟩, .array 7 true, .unquoted ⟨9, [49, 48]⟩, .mixedContainer, .unquoted ⟨6, [100, 63]⟩,
+           .operator .eq, .unquoted ⟨3, [101]⟩, .endTok 1] false := by
+  refine ⟨by decide +kernel, by decide +kernel⟩
+
+/-- … and so is the second: `d, [1, mixed, ? = b]` writes `d={⏎  1 ?=b⏎}`, which reads back as the
+object `1 ?= b` -/
+example : (run (MixedDoc.calls ⟨.unq [100], .unq [49], [], [(.unq [63], .eq, .unq [98])]⟩)
+      (State.init 32 2)).1.out = [100, 61, 123, 10, 32, 32, 49, 32, 63, 61, 98, 10, 125] ∧
+    TextTape.parse [100, 61, 123, 10, 32, 32, 49, 32, 63, 61, 98, 10, 125] =
+      .ok [.unquoted ⟨13, [100]⟩, .object 5 false, .unquoted ⟨7, [49]⟩, .operator .exists_, .unquoted ⟨3, [98]⟩,
+           .endTok 1] false := by
+  refine ⟨by decide +kernel, by decide +kernel⟩
 
 /-- Floats: the model takes the text `std`'s `Display` printed as a parameter (`Call.fmt`).  For EVERY
 text of the shape `Display` produces for a finite `f32` / `f64`, with or without precision —
@@ -578,8 +610,8 @@ Growth theorem, NOT proved in general (full statement kept; `C15_lexemes_partial
   (`C15_lexemes_containers`, `C15_parse_back_containers`: objects, arrays of scalars and of
   containers, empty containers, headers, any nesting, every start flavour).  `write_binary`
   forwarding and `write_rgb` reduce to these (`C15_write_binary_eq_calls`, `C15_rgb_parse_back`), float
-  texts are valid scalars (`C15_float_text_shape`).  Missing: the parse-back half for mixed mode
-  (`C15_mixed_parse_back_partial`), and the shapes the format cannot express (first element of an array
+  texts are valid scalars (`C15_float_text_shape`), scalar-only mixed-mode call lists parse back
+  (`C15_mixed_parse_back`).  Missing: containers after `start_mixed_mode`, and the shapes the format cannot express (first element of an array
   an empty container, header with empty body, header / scalar directly followed by a container
   inside an array).  Until then the clause is decided on the real code: the harness re-parses the
   output of every well-formed call list with `TextTape::from_slice` and compares it with an
